@@ -219,8 +219,14 @@ def c18_schema():
         G("a_b_c", 9, fields=[F("q", 1, "sym"), F("optpx", 2, "Decimal", presence="optional", description="optional composite"),
                               F("reqpx", 3, "Decimal", presence="required"), F("u64", 4, "uint64"), F("i64o", 5, "int64", presence="optional")]),
     ])
+    # three paths with one parameter name, two of them at the SAME depth (`x_y_z`, `x`/`y_z`, `x_y`/`z`)
+    m5 = G("Clash3", 14, fields=[F("f", 1, "uint8")], groups=[
+        G("x_y_z", 2, fields=[F("p", 1, "uint16")]),
+        G("x", 3, fields=[F("q", 1, "uint32")], groups=[G("y_z", 4, dimensionType="dimX", fields=[F("r", 1, "uint64")])]),
+        G("x_y", 5, fields=[F("s", 1, "uint8")], groups=[G("z", 6, fields=[F("t", 1, "uint16"), F("t2", 2, "uint8")])]),
+    ])
     return {"package": "c18x", "id": 901, "version": 5, "semanticVersion": "5.2.1", "description": "C18 trait schema",
-            "byteOrder": "bigEndian", "types": types, "messages": [m1, m2, m3, m4]}
+            "byteOrder": "bigEndian", "types": types, "messages": [m1, m2, m3, m4, m5]}
 
 
 def c18_text_schema():
